@@ -141,5 +141,239 @@ def build():
             '       sel(result, i).insert_index <= sel(result, j).insert_index))',
         ])
 
+    add_get_ordered(w)
     fam = Family('contracts.graph', w)
+    fam.lemmas.append(Lemma('cov', ['C09'], lemma_cov))
+    fam.bounded.append(Bounded('get_ordered_small_graphs', ['C09'], bounded_get_ordered,
+                               scope='all digraphs <= 3 nodes (quick) / <= 4 nodes + 20000 random 5-node graphs (thorough)',
+                               stands_in_for='the clause "cyclic requirements are reported as an error" (needs a '
+                                             'cardinality/induction argument the solver does not do); also a '
+                                             'cross-check of the proved ordering contract'))
+    fam.replay['bounded:get_ordered_small_graphs'] = replay_get_ordered
     return fam
+
+
+# ---------------------------------------------------------------------------------- get_ordered
+
+def rank_fn(it, n):
+    import z3
+    return K.vint(it.p.ctx.ufunc('rank', z3.IntSort(), z3.IntSort())(n.t))
+
+
+def rmax_fn(it):
+    import z3
+    return K.vint(z3.Int('RMAX'))
+
+
+OPEN = "(n in processed and n not in visited)"
+
+# facts about `result`, `result_set` and the ghost position function (hold at both loop levels)
+RES_INV = [
+    "forall(range(len(result)), lambda a: is_node(self, sel(result, a)) and sel(result, a) in result_set and "
+    "       pos[sel(result, a)] == a)",
+    "forall(result_set, lambda n: 0 <= pos[n] and pos[n] < len(result) and sel(result, pos[n]) is n)",
+    # closure + order: whatever is in the result has all its dependencies earlier in the result
+    "forall(result_set, lambda n: forall(n.dependencies, lambda d: d in result_set and pos[d] < pos[n]))",
+]
+COV_HYPS = WF[:2] + [
+    "acyclic(self)",
+    "forall(Ref_Node, lambda n: implies(is_node(self, n) and len(n.required_by) == 0, n in S))",
+    "forall(S, lambda n: forall(n.dependencies, lambda d: d in S))",
+]
+COV_CONCL = "forall(Ref_Node, lambda n: implies(is_node(self, n), n in S))"
+
+
+def add_get_ordered(w):
+    w.spec_funcs['rank'] = rank_fn
+    w.spec_funcs['RMAX'] = rmax_fn
+    w.define('acyclic', ['g'],
+             "forall(Ref_Node, lambda n: implies(is_node(g, n), 0 <= rank(n) and rank(n) < RMAX() and "
+             "       forall(n.dependencies, lambda d: rank(d) < rank(n))))")
+    w.lemma_texts['cov'] = (['self', 'S'], COV_HYPS, COV_CONCL)
+    w.exc('EvolutionException')
+    inner = RES_INV + [
+        "forall(range(li), lambda a: sel(li_seq, a) in result_set)",
+        "forall(range(len(stack)), lambda j: is_node(self, sel(stack, j)))",
+        "forall(visited, lambda n: n in processed and n in result_set)",
+        "forall(processed, lambda n: is_node(self, n))",
+        # an open node (processed, not yet visited) has its marker on the stack at home[n] ...
+        "forall(Ref_Node, lambda n: implies(%s, 0 <= home[n] and home[n] < len(stack) and "
+        "       sel(stack, home[n]) is n))" % OPEN,
+        # ... each of its dependencies is done or waits above the marker ...
+        "forall((Ref_Node, Ref_Node), lambda n, d: implies(%s and d in n.dependencies, d in visited or "
+        "       (home[n] < w[n, d] and w[n, d] < len(stack) and sel(stack, w[n, d]) is d)))" % OPEN,
+        # ... and no second copy of an open node sits above its marker
+        "forall((Ref_Node, range(len(stack))), lambda n, j: implies(%s and home[n] < j, sel(stack, j) is not n))" % OPEN,
+        # acyclic graphs: everything above an open node's marker has smaller rank (so no back edge is ever met)
+        "implies(acyclic(self), forall((Ref_Node, range(len(stack))), lambda n, j: implies(%s and home[n] < j, "
+        "        rank(sel(stack, j)) < rank(n))))" % OPEN,
+        # the leaf this pass started from ends up in the result
+        "leaf_node in visited or (leaf_node in processed and leaf_node not in visited) or "
+        "(len(stack) >= 1 and sel(stack, 0) is leaf_node and leaf_node not in processed)",
+        "is_node(self, leaf_node)", "li < len(li_seq)", "leaf_node is sel(li_seq, li)",
+    ]
+    w.contract(
+        'DependencyGraph.get_ordered', module=GRAPH, serves=['C09'],
+        params={'self': K.Ref('DependencyGraph')}, returns=K.Seq(NODE),
+        requires=WF[:2],
+        locals={'result': K.Seq(NODE), 'result_set': K.Set(NODE), 'stack': K.Seq(NODE),
+                'visited': K.Set(NODE), 'processed': K.Set(NODE)},
+        raises={'AssertionError': 'not self._finalized',
+                # an error is reported only when the requirements really cannot all be met
+                'EvolutionException': 'not acyclic(self)'},
+        ghost_in_body={
+            'result = []': ['pos = fun(Ref_Node, lambda n: 0)', 'home = fun(Ref_Node, lambda n: 0)',
+                            'w = fun(Ref_Node, Ref_Node, lambda n, d: 0)'],
+            'result.append(node)': ['pos[node] = len(result) - 1'],
+            'stack += sorted(node.dependencies': [
+                'home[node] = len(stack) - 1 - len(last_sorted())',
+                'w = fun(Ref_Node, Ref_Node, lambda n, d: ite(n is node, '
+                '        len(stack) - len(last_sorted()) + index_in(last_sorted(), d), w[n, d]))'],
+        },
+        ghost_before={
+            'for node in six.itervalues(self._nodes):': ["use_lemma('cov', self=self, S=result_set)"],
+            # proof hints for the "second pop" case: the popped entry is the node's own marker, so every
+            # dependency (which would have to sit above it) is already visited
+            'visited.add(node)': [
+                'assert home[node] == len(stack)',
+                'assert forall(node.dependencies, lambda d: d in visited)',
+                'assert forall(node.dependencies, lambda d: d in result_set and pos[d] < len(result))'],
+        },
+        invariants={
+            1: LoopInv('for leaf_node in self.get_leaf_nodes():', index='li', clauses=RES_INV + [
+                "forall(range(li), lambda a: sel(li_seq, a) in result_set)"]),
+            2: LoopInv('while stack:', clauses=inner),
+            3: LoopInv('for dep in node.dependencies:', index='di', clauses=[
+                "forall(range(di), lambda a: not (sel(order, a) in processed and sel(order, a) not in visited))"]),
+            4: LoopInv('for node in six.itervalues(self._nodes):', index='ni', clauses=[
+                "forall(range(ni), lambda a: implies(live(self._nodes, a), "
+                "       self._nodes[key_at(self._nodes, a)] in result_set))"]),
+        },
+        ensures=[
+            # every pending unit exactly once
+            "forall((range(len(result)), range(len(result))), lambda a, b: implies(a != b, "
+            "       sel(result, a) is not sel(result, b)))",
+            "forall(range(len(result)), lambda a: is_node(self, sel(result, a)))",
+            "forall(Ref_Node, lambda n: implies(is_node(self, n), exists(range(len(result)), lambda a: sel(result, a) is n)))",
+            # the order respects every dependency
+            "forall(range(len(result)), lambda a: forall(sel(result, a).dependencies, lambda d: "
+            "       exists(range(a), lambda b: sel(result, b) is d)))",
+        ])
+
+
+def lemma_cov(fam):
+    """Cov: in an acyclic well-formed graph a dependency-closed set containing every leaf contains every node.
+    Proved by induction on RMAX - rank; the two solver queries are base and step, the induction schema
+    itself is applied by the checker (listed in the trusted base)."""
+    import z3
+    from pyvc.lemmas import SpecEnv
+    w = fam.world
+    out = []
+    env = SpecEnv(w, {'self': K.Ref('DependencyGraph'), 'S': K.Set(NODE), 'k': K.Int})
+    hyps = env.assumptions + [env.t(h) for h in COV_HYPS]
+    cov = lambda kexpr: env.t("forall(Ref_Node, lambda n: implies(is_node(self, n) and rank(n) >= %s, n in S))" % kexpr)
+    out.append(('base', hyps + env.assumptions, cov('RMAX()')))
+    out.append(('step', hyps + [cov('k + 1')] + env.assumptions, cov('k')))
+    out.append(('conclude', hyps + [cov('0')] + env.assumptions, env.t(COV_CONCL)))
+    return out
+
+
+# ---------------------------------------------------------------------------------- bounded stand-in
+
+def _all_digraphs(n):
+    import itertools
+    pairs = [(a, b) for a in range(n) for b in range(n)]
+    for mask in range(1 << len(pairs)):
+        yield [pairs[i] for i in range(len(pairs)) if mask >> i & 1]
+
+
+def _acyclic(n, edges):
+    deps = {a: set() for a in range(n)}
+    for a, b in edges:
+        deps[a].add(b)
+    state = {}
+
+    def visit(x):
+        if state.get(x) == 1:
+            return False
+        if state.get(x) == 2:
+            return True
+        state[x] = 1
+        for d in deps[x]:
+            if not visit(d):
+                return False
+        state[x] = 2
+        return True
+    return all(visit(x) for x in range(n))
+
+
+def check_order_contract(n, edges):
+    """The get_ordered contract, evaluated natively on the real DependencyGraph. Returns None or a failure."""
+    from django_evolution.utils.graph import DependencyGraph
+    g = DependencyGraph()
+    keys = ['n%d' % i for i in range(n)]
+    for k in keys:
+        g.add_node(k)
+    for a, b in edges:
+        g.add_dependency(keys[a], keys[b])
+    g.finalize()
+    try:
+        res = [x.key for x in g.get_ordered()]
+    except Exception as e:      # noqa
+        if _acyclic(n, edges):
+            return {'clause': 'acyclic graph must be ordered without error', 'observed': repr(e)}
+        return None
+    if not _acyclic(n, edges):
+        return {'clause': 'requirements that cannot all be met must be reported as an error',
+                'observed': res}
+    if sorted(res) != sorted(keys):
+        return {'clause': 'every node exactly once', 'observed': res}
+    pos = {k: i for i, k in enumerate(res)}
+    for a, b in edges:
+        if not pos[keys[b]] < pos[keys[a]]:
+            return {'clause': 'dependency before dependent', 'observed': res}
+    return None
+
+
+def bounded_get_ordered(tier='quick', seed=0):
+    import random
+    nmax = 3 if tier == 'quick' else 4
+    evaluations, nontrivial, failures, samples = 0, 0, [], []
+    known = _known_inputs()
+    for n in range(1, nmax + 1):
+        for edges in _all_digraphs(n):
+            evaluations += 1
+            if edges:
+                nontrivial += 1
+            f = check_order_contract(n, edges)
+            if f is not None and len(failures) < 5:
+                f['inputs'] = {'n': n, 'edges': edges}
+                failures.append(f)
+            if len(samples) < 3 and len(edges) == n:
+                samples.append({'n': n, 'edges': edges, 'ok': f is None})
+    exhaustive = True
+    if tier != 'quick':
+        # 5 nodes: 2^25 graphs is too many to enumerate; sample, and say so
+        rnd = random.Random(seed)
+        for _ in range(20000):
+            edges = [(a, b) for a in range(5) for b in range(5) if rnd.random() < 0.18]
+            evaluations += 1
+            nontrivial += 1
+            f = check_order_contract(5, edges)
+            if f is not None and len(failures) < 5:
+                f['inputs'] = {'n': 5, 'edges': edges}
+                failures.append(f)
+        exhaustive = False
+    return {'evaluations': evaluations, 'distinct_nontrivial': nontrivial, 'failures': failures,
+            'samples': samples, 'exhaustive': exhaustive,
+            'rule': 'all labelled digraphs (self-loops included) on <= %d nodes in insertion order n0..; '
+                    'non-trivial = at least one edge%s' % (nmax, '' if exhaustive else '; plus 20000 random 5-node graphs (sampled, not exhaustive)')}
+
+
+def _known_inputs():
+    return []
+
+
+def replay_get_ordered(label, inputs):
+    f = check_order_contract(inputs['n'], [tuple(e) for e in inputs['edges']])
+    return {'reproduced': f is not None, 'failure': f, 'inputs': inputs}
